@@ -179,7 +179,9 @@ def enum_normal_forms(seed):
 
         def __eq__(self, o):
             return self is o
-    leaves = [Leaf(c) for c in "abcd"]
+    from pkgcore.restrictions import packages as _packages
+    # the constants are leaves too (restriction.AlwaysBool: packages.AlwaysTrue / AlwaysFalse)
+    leaves = [Leaf(c) for c in "abcd"] + [_packages.AlwaysTrue, _packages.AlwaysFalse]
     kw = dict(node_type=restriction.package_type)
     nodes1 = []
     for cls in (boolean.AndRestriction, boolean.OrRestriction):
@@ -200,12 +202,15 @@ def enum_normal_forms(seed):
     cases, fails = 0, []
     for t in trees:
         forms = {}
-        for name in ("dnf_solutions", "cnf_solutions"):
+        for meth, full in itertools.product(("dnf_solutions", "cnf_solutions", "iter_dnf_solutions", "iter_cnf_solutions"), (False, True)):
+            if not hasattr(t, meth):
+                continue
+            name = meth + ("(full_solution_expansion=True)" if full else "")
             try:
-                forms[name] = getattr(t, name)()
+                forms[name] = [list(c) for c in getattr(t, meth)(full)]
             except NotImplementedError:
                 continue   # the combination is refused (documented for negated CNF)
-            except AssertionError as e:
+            except Exception as e:
                 forms[name] = e
         for a in assigns:
             cases += 1
@@ -213,7 +218,7 @@ def enum_normal_forms(seed):
             for name, f in forms.items():
                 if isinstance(f, Exception):
                     got = repr(f)
-                elif name == "dnf_solutions":
+                elif "dnf" in name:
                     got = any(all(ev(l, a) for l in clause) for clause in f)
                 else:
                     got = all(any(ev(l, a) for l in clause) for clause in f)
@@ -221,7 +226,7 @@ def enum_normal_forms(seed):
                 if got != want and sum(1 for f_ in fails if f_["model"]["has_empty_group"] == empty) < (2 if empty else 10):
                     fails.append({"model": {"tree": str(t), "assignment": sorted(a), "form": name, "has_empty_group": empty},
                                   "detail": f"{name} of {t} evaluates to {got} under {sorted(a)} but match() is {want}; form={f}"})
-    return {"name": "C06.normal_forms.bounded_enumeration", "bound": f"{len(trees)} And/Or trees of depth <= 2, <= 3 children, 4 leaves, negation at depth 1; all 16 truth assignments",
+    return {"name": "C06.normal_forms.bounded_enumeration", "bound": f"{len(trees)} And/Or trees of depth <= 2, <= 3 children, 4 leaves and the two constants, negation at depth 1; dnf / cnf / iter_dnf / iter_cnf, each with and without full_solution_expansion; all 16 truth assignments",
             "cases": cases, "failures": fails}
 
 
